@@ -101,13 +101,13 @@ func runC09(ctx *Ctx) error {
 		if r.Chance(0.3) {
 			p = mutateBytes(r, p)
 		}
-		addC08Case(ctx, c08Input{hex.EncodeToString(p), m, false, "hostile-tables"})
+		addC08Case(ctx, c08Input{hex.EncodeToString(p), m, false, "hostile-tables", r.Chance(0.2)})
 	}
 	// named decoder cases: zero timescale, zero-reading sensor element, empty and moov-less files are covered by D15/D12/D21 demos
 	{
 		p, t := genValidLayout(r, 2)
 		t.Timescale = 0
-		addC08Case(ctx, c08Input{hex.EncodeToString(p), t, false, "hostile-zero-timescale"})
+		addC08Case(ctx, c08Input{hex.EncodeToString(p), t, false, "hostile-zero-timescale", false})
 	}
 	n := ctx.N(500, 12000)
 	// named cases of the property statement
@@ -124,6 +124,10 @@ func runC09(ctx *Ctx) error {
 		(&knode{Key: "STRM", Typ: 0, Kids: []*knode{{Key: "TYPE", Typ: 'c', Size: 1, Count: 9, Data: []byte("BBSSSSSBB")}, {Key: "FACE", Typ: '?', Size: 14, Count: 3, Data: make([]byte, 42)}}}).encode(),
 		(&knode{Key: "STRM", Typ: 0, Kids: []*knode{{Key: "TYPE", Typ: 'c', Size: 1, Count: 5, Data: []byte("Lffff")}, {Key: "FACE", Typ: '?', Size: 19, Count: 1, Data: make([]byte, 19)}}}).encode(),
 		(&knode{Key: "GPS5", Typ: 'l', Size: 20, Count: 0}).encode(),
+		// a sensor element whose stream states nothing while its device does
+		(&knode{Key: "DEVC", Typ: 0, Kids: []*knode{{Key: "DVNM", Typ: 'c', Size: 1, Count: 3, Data: []byte("Cam")},
+			{Key: "STRM", Typ: 0, Kids: []*knode{{Key: "ACCL", Typ: 's', Size: 6, Count: 1, Data: []byte{0, 1, 0, 2, 0, 3}}}}}}).encode(),
+		(&knode{Key: "DEVC", Typ: 0, Kids: []*knode{{Key: "STRM", Typ: 0, Kids: []*knode{{Key: "GYRO", Typ: 's', Size: 6, Count: 1, Data: []byte{0, 1, 0, 2, 0, 3}}}}}}).encode(),
 		(&knode{Key: "ABCD", Typ: 'U', Size: 16, Count: 1, Data: []byte("999999999999.999")}).encode(),
 	}
 	for _, b := range named {
@@ -150,7 +154,33 @@ func runC09(ctx *Ctx) error {
 				continue
 			}
 			fallthrough
-		case 3, 4, 5:
+		case 3:
+			// well-formed but unusual device payloads: streams with any subset of the descriptive
+			// keys (including none at all) below devices that do or do not state theirs; as is, with
+			// elements removed, and mutated
+			tag := 0
+			f := genC16Payload(r, &tag)
+			if r.Chance(0.5) {
+				for _, d := range f {
+					for _, st := range d.Kids {
+						if st.Typ == 0 && len(st.Kids) > 1 && r.Chance(0.5) {
+							k := r.Intn(len(st.Kids) - 1)
+							st.Kids = st.Kids[k:] // drop the leading keys, keep the sensor element
+						}
+					}
+				}
+			}
+			b := encodeForest(f)
+			if len(b) > 3000 {
+				b = b[:3000]
+			}
+			kind := "device-payload"
+			if r.Chance(0.4) {
+				b = mutateBytes(r, b)
+				kind = "device-payload-mutation"
+			}
+			addGpmfCase(ctx, gpmfInput{hex.EncodeToString(b), 0, kind})
+		case 4, 5:
 			d := &knode{Key: "DEVC", Typ: 0, Kids: []*knode{genStream(r)}}
 			b := mutateBytes(r, d.encode())
 			if r.Chance(0.3) {
